@@ -20,7 +20,7 @@ from .e3 import E3, e3_interp, stepup, ac_from_rc, names_for, ksyms
 
 META = {
     "level": "other",
-    "functions": ["spectrum.linear_prediction.{ac2poly,ac2rc,poly2ac,poly2rc,rc2poly,rc2ac,rc2lar,lar2rc,rc2is,is2rc,lsf2poly,poly2lsf}",
+    "functions": ["spectrum.linear_prediction.lsf2poly", "spectrum.linear_prediction.poly2lsf", "spectrum.linear_prediction.{ac2poly,ac2rc,poly2ac,poly2rc,rc2poly,rc2ac,rc2lar,lar2rc,rc2is,is2rc,lsf2poly,poly2lsf}",
                   "spectrum.levinson.{LEVINSON,rlevinson,levup,levdown}"],
     "assumptions": ["A-REAL", "bounded in order (p <= 4 quick, 6 thorough), all values; L-PARAM (admissible parameter sets are exactly the "
                     "(r0, k) with r0 > 0, |k_i| < 1; the identities are proved as identities of Q(r0, k), i.e. wherever no divisor vanishes)",
